@@ -11,7 +11,11 @@ RULE = ('selmap: random histories of set/pop/clear/copy over 1-3 maps with queri
         'another (or share a suffix) AND the history contains a pop or a copy followed by a mutation. '
         'spelling: one parameter addressed through every unambiguous spelling across bind / query / '
         'get_bindings / get_configurable / reference / finalize hooks; non-trivial = >= 2 distinct '
-        'spellings of a module-qualified configurable used through >= 2 different APIs.')
+        'spellings of a module-qualified configurable used through >= 2 different APIs. '
+        "macro-spelling (implementation only): the spellings of a macro's parameter ('%NAME', 'NAME/gin.macro.value', the tuple "
+        "key, 'NAME/macro.value', config text, finalize hooks) written and read in every combination while other configurables "
+        "called `macro` / `macros` / `xmacro` are registered before or after the parse; non-trivial = such an entry exists and "
+        '>= 2 different spellings write.')
 TRUSTED_BASE = [
     'Coq 8.16.1 kernel (coqc; coqchk in the thorough tier); vm_compute used in refutation witnesses and in the correspondence run; no native_compute',
     'axioms: none (Print Assumptions: Closed under the global context for every theorem of Props/C08.v)',
@@ -369,4 +373,120 @@ class Spelling(c12.LockEngine):
     return r
 
 
-ENGINES = [SelMap(), Spelling()]
+class MacroSpelling(Engine):
+  """the parameter `value` of Gin's own `gin.macro` under the scope NAME has several spellings: the config text `NAME = v`
+  (use: `%NAME`), the key strings 'NAME/gin.macro.value' and '%NAME', the tuple (NAME, 'gin.macro', 'value'), and - while no
+  other configurable is called `macro` - the abbreviation 'NAME/macro.value'.  The statement asks that binding, querying,
+  references and finalize hooks treat every unambiguous spelling as the same key, whatever else is registered (before or
+  after the text was parsed): a value written through one spelling is what every other spelling reads and what a consumer of
+  `%NAME` receives; the abbreviation 'macro' is rejected as ambiguous exactly when a second entry ends with it.
+  Implementation only: the Coq model has no '%NAME' key strings (it starts from parsed keys)."""
+  name = 'macro-spelling'
+  model = False
+  NAMES = ['x', 'batch_size', 's1/x', 's1/s2/mm']
+  OTHERS = [[], ['user.macro'], ['a.b.macro'], ['user.macro', 'other.macro'], ['user.macros'], ['user.xmacro', 'macro.user']]
+  WRITERS = ['pct', 'full', 'tuple', 'short', 'text', 'hook-pct', 'hook-full']
+  READERS = ['pct', 'full', 'short']
+
+  def budget(self, tier):
+    return 0 if tier == 'quick' else 150
+
+  def corpus(self):
+    cs = []
+    for i, others in enumerate(self.OTHERS):
+      for late in ((False, True) if others else (False,)):
+        cs.append({'name': self.NAMES[i % len(self.NAMES)], 'others': others, 'late': late, 'writers': self.WRITERS})
+    return cs
+
+  def gen(self, rng, tier):
+    others = rng.choice(self.OTHERS)
+    return {'name': rng.choice(self.NAMES), 'others': others, 'late': bool(others) and rng.random() < 0.5,
+            'writers': [rng.choice(self.WRITERS) for _ in range(rng.randint(1, 5))]}
+
+  def shrink(self, case):
+    for i in range(len(case['writers'])):
+      if len(case['writers']) > 1:
+        yield dict(case, writers=case['writers'][:i] + case['writers'][i + 1:])
+    if len(case['others']) > 1:
+      yield dict(case, others=case['others'][:1])
+
+  def impl(self, case):
+    gin = C.fresh_gin()
+    fails = []
+    name = case['name']
+
+    def consumer(p=None):
+      return p
+    gin.external_configurable(consumer, name='consumer', module='c08m')
+
+    def register_others():
+      for sel in case['others']:
+        mod, nm = sel.rsplit('.', 1)
+        gin.external_configurable(lambda v=0: v, name=nm, module=mod)
+
+    if not case['late']:
+      register_others()
+    gin.parse_config('%s = 1\nconsumer.p = %%%s\n' % (name, name))
+    if case['late']:
+      register_others()
+    ambiguous = any(s.endswith('.macro') for s in case['others'])   # spec: 'macro' then matches several entries
+    keys = {'pct': '%' + name, 'full': name + '/gin.macro.value', 'short': name + '/macro.value',
+            'tuple': (name, 'gin.macro', 'value')}
+
+    def outcome(fn):
+      try:
+        return ('ok', fn())
+      except Exception as e:  # pylint: disable=broad-except
+        return ('raised', '%s: %s' % (type(e).__name__, str(e).split('\n')[0][:120]))
+
+    def read_all(want, how):
+      for r in self.READERS:
+        got = outcome(lambda: gin.query_parameter(keys[r]))
+        if r == 'short' and ambiguous:
+          if got[0] != 'raised' or 'mbiguous' not in got[1]:
+            fails.append(('ambiguous-name-accepted', 'query_parameter(%r) with entries %r + gin.macro gives %r' %
+                          (keys[r], case['others'], got)))
+        elif got != ('ok', want):
+          fails.append(('spelling-dependent-key', 'macro %r %s: query_parameter(%r) gives %r, the same parameter read as %r is %r '
+                        '(other entries: %r registered %s the parse)' % (name, how, keys[r], got, keys['full'], want, case['others'],
+                                                                      'after' if case['late'] else 'before')))
+      got = outcome(lambda: gin.get_configurable('c08m.consumer')())
+      if got != ('ok', want):
+        fails.append(('spelling-dependent-key', 'macro %r %s: a consumer of %%%s receives %r, expected %r' % (name, how, name, got, want)))
+
+    cur = 1
+    read_all(cur, 'defined by the config text')
+    for i, w in enumerate(case['writers']):
+      v = 10 + i
+      if w == 'text':
+        res = outcome(lambda: gin.parse_config('%s = %d\n' % (name, v)))
+      elif w.startswith('hook-'):
+        key = keys[w[5:]]
+        saved = list(gin.config._FINALIZE_HOOKS)  # pylint: disable=protected-access
+        gin.config.register_finalize_hook(lambda config, key=key, v=v: {key: v})
+        res = outcome(gin.finalize)
+        gin.config._FINALIZE_HOOKS[:] = saved  # pylint: disable=protected-access
+        gin.config._set_config_is_locked(False)  # pylint: disable=protected-access
+      else:
+        res = outcome(lambda: gin.bind_parameter(keys[w], v))
+      how = 're-bound to %d through %s' % (v, w if w in ('text',) else repr(keys.get(w, keys.get(w[5:]))) + (' (finalize hook)' if w.startswith('hook-') else ''))
+      if w == 'short' and ambiguous:
+        if res[0] != 'raised' or 'mbiguous' not in res[1]:
+          fails.append(('ambiguous-name-accepted', 'bind_parameter(%r) with entries %r + gin.macro gives %r' % (keys[w], case['others'], res)))
+      elif res[0] != 'ok':
+        fails.append(('spelling-dependent-key', 'macro %r could not be %s: %s (other entries: %r registered %s the parse); the config '
+                      'text and %r name the same parameter and are accepted' % (name, how, res[1], case['others'],
+                                                                               'after' if case['late'] else 'before', keys['full'])))
+      else:
+        cur = v
+      read_all(cur, how)
+    uniq, seen = [], set()
+    for f in fails:
+      if f not in seen:
+        seen.add(f)
+        uniq.append(f)
+    return {'obs': C.T('Done'), 'fails': uniq[:3], 'nontrivial': bool(case['others']) and len(set(case['writers'])) >= 2,
+            'tags': ['ambiguous-macro' if ambiguous else 'plain']}
+
+
+ENGINES = [SelMap(), Spelling(), MacroSpelling()]
